@@ -51,7 +51,7 @@ func assumptionsFor(g *Gen, prop string) []string {
 		"user-supplied functions (registered functions, CTE thunks, error handlers) may do anything to what they can reach, except that they do not write the rows they are handed and do not panic inside error handlers; function values stored in documents and function tables are non-nil",
 		"goroutine interleavings are not modelled (a go statement is a fork whose body is verified as a function against its own contract; lock, ownership and wait-group obligations stand in for schedules; data-race freedom follows under the Go memory model's DRF-SC guarantee)",
 		"lock state is call-invariant: every function that locks carries lock-balance obligations, so by induction over the call tree a call returns with every mutex as it found it",
-		"scalar cells (bool, float64, string) reachable only through one pointer are not aliased by other objects; `called(F)` is false at and after a loop head for calls inside the loop body and is used only positively",
+		"scalar cells (bool, float64, string) reachable only through one pointer are not aliased by other objects",
 		"slices, strings and maps are smaller than 2^40 elements (Go's allocator guarantees far less)",
 		"no unsafe code and no cgo in the module (checked: the packages import neither unsafe nor C)",
 		"termination is proved only where a contract gives a measure; recursion over the finite AST and the finite document is not measured",
